@@ -9,6 +9,8 @@
 //        ->  ok <32 hex of the 16 address bytes> <port>   |   reject   |   reject:empty (caller-guarded precondition)
 //   l <n 0|1><s 0|1> <line hex>                                      ftpListParseParts(line, flags{tried_nlst=n, skip_whitespace=s})
 //        ->  null | T=<type byte> S=<size> D=<date hex> N=<name hex> L=<link hex|none>
+//   v <sanity 0|1> <reply hex>                                       the port extraction of Ftp::Client::handleEpsvReply (statements cut
+//        out of src/clients/FtpClient.cc into c40_epsv.inc)  ->  ok <port> | reject
 //   u <hex>                                                          Ftp::UnescapeDoubleQuoted -> hex
 //   --dump                                                           constants used by the model (MAX_IPSTRLEN, w_space, ...)
 //
@@ -19,6 +21,7 @@
 #include "ip/Address.h"
 #include "MemBuf.h"
 #include "SquidConfig.h"
+#include "debug/Stream.h"
 
 #include <climits>
 #include <cstdio>
@@ -32,6 +35,21 @@
 
 // ---- the extracted listing parser -------------------------------------------------------------------------------
 #include "c40_listparts.inc"
+
+// ---- the extracted EPSV reply scan ---------------------------------------------------------------------------------
+namespace c40epsv {
+struct FakeConn { const char *remote = "peer"; };
+struct FakeCtrl { FakeConn *conn; char *last_reply; };
+/// the statements of Ftp::Client::handleEpsvReply between the strcspn() line and `remoteAddr = ...`, unedited;
+/// `return sendPassive();` (= the reply is not used) becomes `return false`
+static bool scan(FakeCtrl &ctrl, long &outPort) {
+    auto sendPassive = []() { return false; };
+    char *buf = nullptr;
+#include "c40_epsv.inc"
+    outPort = port;
+    return true;
+}
+}
 
 // ---- helpers -----------------------------------------------------------------------------------------------------
 static bool unhex(const std::string &h, std::string &r) {
@@ -148,6 +166,19 @@ static std::string doList(const std::vector<std::string> &w) {
     return r;
 }
 
+static std::string doEpsv(const std::vector<std::string> &w) {
+    if (w.size() != 3 || (w[1] != "0" && w[1] != "1")) return "bad-op";
+    std::string reply;
+    if (!unhex(w[2], reply) || reply.find('\0') != std::string::npos) return "bad-op";
+    Config.Ftp.sanitycheck = (w[1] == "1");
+    CStr b(reply);
+    c40epsv::FakeConn conn;
+    c40epsv::FakeCtrl ctrl{&conn, b.p};
+    long port = -1;
+    if (!c40epsv::scan(ctrl, port)) return "reject";
+    return "ok " + std::to_string(port);
+}
+
 static std::string doUnescape(const std::vector<std::string> &w) {
     if (w.size() != 2) return "bad-op";
     std::string s;
@@ -186,6 +217,7 @@ int main(int argc, char **argv) {
         else if (w[0] == "p") out = doPasv(w);
         else if (w[0] == "e") out = doEprt(w);
         else if (w[0] == "l") out = doList(w);
+        else if (w[0] == "v") out = doEpsv(w);
         else if (w[0] == "u") out = doUnescape(w);
         else out = "bad-op";
         puts(out.c_str());
